@@ -94,7 +94,56 @@ def standin(tier, seed):
             want = set(np.where(np.isin(labels, rec))[0].tolist())
             if moved_rows != want or any(x < 0 for x in rec):
                 V.add("composite:moved_rows", case, f"moved {sorted(moved_rows)} expected {sorted(want)} (labels {rec})")
-    return V.result(bound=f"{len(arrays)} label arrays over {vals} with n<=5 x 4 single-move modes x composites of 2..4 sub-moves")
+    # two moves with different labelings that share ONE context (any driver with two displacement moves), called alternately with
+    # the same label number: the atoms that move are those carrying that label in the labeling of the move that is called
+    for rep in range(20 if tier == "quick" else 200):
+        n = 6
+        LA, LB = np.array([0, 0, 1, 1, 2, 2]), np.array([2, 0, 0, 1, 1, 1])
+        a = system(n, g)
+        ctx = DisplacementContext(a, np.random.default_rng(int(g.integers(0, 2 ** 31))))
+        A, B = DisplacementMove(LA.copy(), Ball(0.3)), DisplacementMove(LB.copy(), Ball(0.3))
+        order = [A, B, A, A, B, B, A] if rep % 2 == 0 else [(A, B)[int(g.integers(0, 2))] for _ in range(8)]
+        lab = int(g.integers(0, 3)) if rep % 2 else 1
+        for t, mv in enumerate(order):
+            if rep % 3 != 2:
+                mv.to_displace_labels = lab
+            p0 = a.get_positions()
+            r = mv(ctx)
+            d = a.get_positions() - p0
+            case = {"shared_context": True, "labels": (LA if mv is A else LB).tolist(), "call": t, "order": ["A" if m is A else "B" for m in order]}
+            V.case(case)
+            moved_rows = np.where(np.abs(d).sum(axis=1) > 0)[0].tolist()
+            ell = mv.displaced_labels
+            want = np.where(mv.labels == ell)[0].tolist() if (r and ell is not None) else []
+            if moved_rows != want:
+                V.add("shared_context:exactly_the_selected_particle", case, f"label {ell}: moved rows {moved_rows}, expected {want}")
+                break
+    # composite of distinct moves whose eligible label sets overlap without being equal (small step for everybody + large step for a
+    # subset): still no particle twice, and min(k, eligible) particles in total
+    for rep in range(40 if tier == "quick" else 400):
+        n = 5
+        L1 = np.array([0, 1, 2, 3, -1])
+        L2 = np.array([-1, -1, 2, 3, -1]) if rep % 2 == 0 else np.array([-1, 1, 2, -1, -1])
+        a = system(n, g)
+        ctx = DisplacementContext(a, np.random.default_rng(int(g.integers(0, 2 ** 31))))
+        subs = [DisplacementMove(L1.copy(), Box(0.1)), DisplacementMove(L2.copy(), Box(0.4)), DisplacementMove(L1.copy(), Box(0.1)), DisplacementMove(L2.copy(), Box(0.4))][: 2 + rep % 3]
+        comp = subs[0]
+        for s_ in subs[1:]:
+            comp = comp + s_
+        p0 = a.get_positions()
+        r = comp(ctx)
+        case = {"composite_of_overlapping_label_sets": [x.labels.tolist() for x in subs]}
+        V.case(case)
+        rec = [x for x in comp.displaced_labels if x is not None]
+        if len(set(rec)) != len(rec):
+            V.add("composite:same_particle_twice", case, rec)
+        if comp.number_of_moved_particles != len(rec) or bool(r) != (len(rec) > 0):
+            V.add("composite:count_report", case, f"{comp.number_of_moved_particles} vs {len(rec)}, result {r}")
+        d = a.get_positions() - p0
+        moved_rows = set(np.where(np.abs(d).sum(axis=1) > 0)[0].tolist())
+        if moved_rows != set(np.where(np.isin(L1, rec))[0].tolist()):
+            V.add("composite:moved_rows", case, f"moved {sorted(moved_rows)} for displaced labels {rec}")
+    return V.result(bound=f"two moves alternating on one shared context; composites of moves with overlapping label sets; {len(arrays)} label arrays over {vals} with n<=5 x 4 single-move modes x composites of 2..4 sub-moves")
 
 
 def replay(case):
